@@ -306,6 +306,7 @@ Theorem n_add_spec ov s name tcode s' i victim :
 Proof.
   unfold n_add. destruct (ty_of_code tcode) as [t|]; try discriminate.
   destruct (ty_eqb (s_ty s) TArray && negb (ty_is_scalar t)); try discriminate.
+  destruct (ty_eqb (s_ty s) TArray && negb (checktype s t)); try discriminate.
   fold (eff_name s name). set (nm := eff_name s name).
   destruct (negb match nm with Some n => validate_name n | None => true end) eqn:Hval; try discriminate.
   apply negb_false_iff in Hval.
